@@ -240,10 +240,13 @@ where
     }
 
     fn n_bins(&self) -> usize {
-        let mut max_edge = self.min.clone();
+        // Count with the same expression `build` uses to place the edges, so
+        // that the last edge is strictly greater than `max` whatever the
+        // rounding of the element type.
         let mut n_bins = 0;
-        while max_edge <= self.max {
-            max_edge = max_edge + self.bin_width.clone();
+        while self.min.clone() + T::from_usize(n_bins).unwrap() * self.bin_width.clone()
+            <= self.max
+        {
             n_bins += 1;
         }
         n_bins
